@@ -49,6 +49,21 @@ def rule_trace_distance_shape(ctx: Ctx) -> None:
         diff_ok = isinstance(arg, ast.BinOp) and isinstance(arg.op, ast.Sub) and {norm(arg.left), norm(arg.right)} == {a, b}
         tgt = ev[0].targets[0]
         vals = norm(tgt.elts[0]) if isinstance(tgt, ast.Tuple) else norm(tgt)
+        # shortcut returns: only the closed form for *two* pure states, sqrt(1 - Tr[rho sigma]), under `is_pure(a) and is_pure(b)`
+        main = [r_ for r_ in ret if not any(isinstance(x, ast.If) and "is_pure" in norm(x.test) for x in _anc(r_))]
+        for r_ in [x for x in ret if x not in main]:
+            g = next(x for x in _anc(r_) if isinstance(x, ast.If) and "is_pure" in norm(x.test))
+            t = g.test
+            both = isinstance(t, ast.BoolOp) and isinstance(t.op, ast.And) and f"is_pure({a})" in norm(t) and f"is_pure({b})" in norm(t) \
+                and any(r_ is x for b_ in g.body for x in ast.walk(b_))
+            if both:
+                ctx.ok("dist.shape", m, r_, what="closed form under `both pure`")
+            else:
+                ctx.fail("dist.shape", m, r_,
+                         f"trace_distance returns `{short(r_.value, 60)}` under `{short(t, 60)}`: a closed form in the overlap Tr[rho sigma] is the trace "
+                         f"distance only when *both* states are pure; with one pure and one mixed state it gives the Fuchs-van de Graaf upper bound "
+                         f"instead (T(|0><0|, I/2) = 0.707 instead of 0.5)", func="trace_distance", construct="trace_distance: shortcut not restricted to two pure states")
+        ret = main or ret
         r = ret[0].value
         half = False
         inner = None
